@@ -130,6 +130,27 @@ def run(src, tier, seed):
     else:
         res.bad(r, 'first-pass-accepts-all', fx.loc(s2r), 'the validating pass of stringToRational no longer throws for unexpected characters')
     # ---- R4 printing
+    # ---- a pending counter that is flushed into a length is reset in the same branch (both scanner passes buffer interior zeros the same way)
+    r = res.rule('flush-resets-pending-counter', 'in stringToRational, a branch that adds a pending counter into a length (len += counter + k) resets the counter before the next character: '
+                 'the counter buffers digits that are only counted once a later digit shows they are interior', floor=2)
+    sr = s2r
+    counters = {path_of(n['e']) for n in fwalk(sr) if n.get('k') == 'un' and n.get('op') == '++' and n.get('e', {}).get('k') == 'ref'}
+    for blk in (b for b in walk(sr['body']) if b.get('k') == 'seq'):
+        stmts = [x for x in blk['c'] if isinstance(x, dict)]
+        for i, st in enumerate(stmts):
+            e = see_through(st.get('e')) if st.get('k') == 'e' else None
+            if not (isinstance(e, dict) and e.get('k') == 'bin' and e.get('op') == '+='):
+                continue
+            used = {x['n'] for x in walk(e['r']) if x.get('k') == 'ref' and x['n'] in counters and x['n'] != path_of(e['l'])}
+            for z in sorted(used):
+                reset = any(isinstance(see_through(t.get('e')), dict) and see_through(t['e']).get('k') == 'bin' and see_through(t['e']).get('op') == '=' and path_of(see_through(t['e'])['l']) == z
+                            and see_through(see_through(t['e'])['r']).get('v') == 0 for t in stmts[i + 1:] if t.get('k') == 'e')
+                if reset:
+                    res.ok(r, 'line %s: %s += %s ...; %s = 0' % (st.get('ln'), path_of(e['l']), z, z))
+                else:
+                    res.bad(r, 'pending-counter-not-reset:%s:%s' % (path_of(e['l']), z), fx.loc(sr, st.get('ln')), 'stringToRational adds the pending counter `%s` into `%s` (line %s) without resetting it '
+                            'in that branch: the buffered digits are counted again at the next flush and the literal is read with the wrong scale' % (z, path_of(e['l']), st.get('ln')))
+
     r = res.rule('printing-exact', 'FastRational::get_str / print use the exact GMP conversion (mpq_get_str / gmp printf %Qd) or integer formatting of num/den; no floating-point formatting of a Number', floor=1)
     gs = [f for f in fx.F.values() if f['name'] in ('opensmt::FastRational::get_str', 'opensmt::FastRational::print')]
     if not gs:
